@@ -579,3 +579,85 @@ Definition default_fuel (s : schema) (d : document) (root : data) : nat :=
 Definition execute (s : schema) (d : document) (vars : list (str * value)) (root : data)
   : response :=
   execute_fuel (default_fuel s d root) s d vars root.
+
+(* ------------------------------------------------------------------ response invariants
+   (predicates used to state the theorems of Properties/C02.v and C13.v) *)
+
+(* following path [p] in [j] reaches a null at [p] or at one of its prefixes *)
+Fixpoint hits_null (p : path) (j : json) {struct p} : bool :=
+  match j with
+  | JNull => true
+  | _ =>
+    match p with
+    | [] => false
+    | PKey k :: r =>
+        match j with
+        | JObj kvs => match lookup k kvs with Some j' => hits_null r j' | None => false end
+        | _ => false
+        end
+    | PIdx i :: r =>
+        match j with
+        | JList js => match nth_error js i with Some j' => hits_null r j' | None => false end
+        | _ => false
+        end
+    end
+  end.
+
+(* a serialised leaf of the given leaf type *)
+Definition leaf_json (td : type_def) (j : json) : bool :=
+  match td, j with
+  | TScalar SInt, JInt z => in_int_range z
+  | TScalar SFloat, JFloat _ _ => true
+  | TScalar SString, JStr _ => true
+  | TScalar SID, JStr _ => true
+  | TScalar SBoolean, JBool _ => true
+  | TEnum vals, JStr x => mem x vals
+  | _, _ => false
+  end.
+
+(* [rt] is an object type a value of named type [n] can have at run time *)
+Definition runtime_of (s : schema) (n rt : str) : Prop :=
+  (is_object s n = true /\ rt = n) \/ (is_object s rt = true /\ possible s n rt = true).
+
+Section Shape.
+  Variable s : schema.
+  Variable frags : list fragment.
+  Variable cv : list (str * value).
+
+  (* [shaped t sels j]: [j] has the shape type [t] and the (merged) selection set [sels] prescribe:
+     null only where [t] is nullable, lists for list types, leaves of the right kind, and objects
+     whose keys are exactly the response keys of CollectFields for some possible runtime type, in
+     first-appearance order (fields the runtime type does not define are absent), each value
+     shaped by its field's type and merged sub-selections. *)
+  Inductive shaped : ty -> list selection -> json -> Prop :=
+  | sh_null t sels : is_nonnull t = false -> shaped t sels JNull
+  | sh_nonnull t sels j : j <> JNull -> shaped t sels j -> shaped (TNonNull t) sels j
+  | sh_list t sels js : Forall (shaped t sels) js -> shaped (TList t) sels (JList js)
+  | sh_leaf n td sels j :
+      lookup_type s n = Some td -> leaf_json td j = true -> shaped (TNamed n) sels j
+  | sh_obj n rt sels kvs :
+      runtime_of s n rt -> shaped_obj rt sels kvs -> shaped (TNamed n) sels (JObj kvs)
+  with shaped_obj : str -> list selection -> list (str * json) -> Prop :=
+  | sho rt sels fuel v g kvs :
+      collect s frags cv rt fuel sels ([], []) = Some (v, g) ->
+      shaped_fields rt g kvs -> shaped_obj rt sels kvs
+  with shaped_fields : str -> grouped -> list (str * json) -> Prop :=
+  | shf_nil rt : shaped_fields rt [] []
+  | shf_empty rt k g kvs : shaped_fields rt g kvs -> shaped_fields rt ((k, []) :: g) kvs
+  | shf_unknown rt k f1 fs g kvs :
+      str_eqb (fs_name f1) n_typename = false -> lookup_field s rt (fs_name f1) = None ->
+      shaped_fields rt g kvs -> shaped_fields rt ((k, f1 :: fs) :: g) kvs
+  | shf_typename rt k f1 fs g kvs :
+      str_eqb (fs_name f1) n_typename = true ->
+      shaped_fields rt g kvs -> shaped_fields rt ((k, f1 :: fs) :: g) ((k, JStr rt) :: kvs)
+  | shf_field rt k f1 fs fd j g kvs :
+      str_eqb (fs_name f1) n_typename = false -> lookup_field s rt (fs_name f1) = Some fd ->
+      shaped (f_type fd) (merged_sels (f1 :: fs)) j ->
+      shaped_fields rt g kvs -> shaped_fields rt ((k, f1 :: fs) :: g) ((k, j) :: kvs).
+
+  (* a logged resolver call carries the coerced arguments of some field selection *)
+  Definition call_ok (c : call) : Prop :=
+    let '(_, fname, args) := c in
+    exists rt fd lits, lookup_field s rt fname = Some fd /\
+                       coerce_args s cv (f_args fd) lits = Some args.
+End Shape.
